@@ -157,6 +157,20 @@ def run(ctx):
         if label == "interval":
             UB = [x + 1 for x in UB]
         run_case(ctx, ser(dict(kind="binary", op=op, A=dict(U=UA, P=PA, W=WA), B=dict(U=UB, P=PB, W=WB))))
+    for i in range(budget(ctx, 14, 140)):
+        # operands over "the same basis at first sight": equal degree, equal number of control points, equal distinct knots — only the
+        # interior multiplicities are distributed differently
+        pr = same_breakpoint_pair(rng)
+        if pr is None:
+            continue
+        UA, UB = pr
+        op = rng.choice(["add", "sub", "add", "mul"])
+        dim = rng.choice([1, 1, 2])
+        na = kv_info(UA)[1]
+        rat = rng.random() < 0.2 and kv_info(UA)[0] <= 1
+        run_case(ctx, ser(dict(kind="binary", op=op, A=dict(U=UA, P=rand_points(rng, na, dim), W=(rand_weights(rng, na, "pos") if rat else None)),
+                               B=dict(U=UB, P=rand_points(rng, na, dim), W=None))))
+        ctx["rec"].count("family", "same-breakpoints-different-multiplicities")
     for i in range(budget(ctx, 6, 40)):
         # products of higher degree (Bezier operands of degree 4..5, the same or different degrees): binomials up to C(10, k)
         iv = rand_interval(rng)
